@@ -49,6 +49,9 @@ pub fn do_request(db: &World, req: &Req) -> Outcome {
                     Kind::NoEq => q_noeq::accumulated::<Diag>(hdb, k),
                     Kind::Lru => q_lru::accumulated::<Diag>(hdb, k),
                     Kind::Multi => q_multi::accumulated::<Diag>(hdb, k, 0),
+                    Kind::Maker if ctx.prog.nodes[*n].lru_maker => {
+                        q_maker_lru::accumulated::<Diag>(hdb, k)
+                    }
                     Kind::Maker => q_maker::accumulated::<Diag>(hdb, k),
                     Kind::Fix => q_fix::accumulated::<Diag>(hdb, k),
                     Kind::FixJ => q_fixj::accumulated::<Diag>(hdb, k),
